@@ -98,3 +98,17 @@ Proof.
   split; [vm_compute; repeat (first [left; reflexivity | right])|].
   vm_compute. repeat split; reflexivity.
 Qed.
+
+(* ------------------------------------------------------------------ tie by translation: the tracing function *)
+(* The public tracing function <prefix><dst>_trace_<ert> as REGENERATED from the template text of
+   barectf.c.j2 on every run (tools/c2coq.py -> Gen/CSkelFuns.v fn_trace), run by the semantics of
+   Tracer/CSkelTrace.v, is Model.trace_fn for every data stream type, event record type, argument
+   list and world: in particular where the in-tracing-section flag is raised (right after the enabled test, before any size computation or store) and lowered (after the commit, and on each discard path) -
+   is what the theorems of this file speak about.  An edit of that template breaks this theorem or
+   the fail-closed translator before any differential run. *)
+From BT.Tracer Require Import CSkel CSkelTrace CSkelTraceProofs.
+From BT.Gen Require Import CSkelFuns.
+Theorem C16_trace_fn_is_the_translated_C :
+  forall d e args w, run_trace d skel_funs e args fn_trace w = Some (trace_fn d e args w).
+Proof. exact skel_trace. Qed.
+Print Assumptions C16_trace_fn_is_the_translated_C.
